@@ -19,6 +19,7 @@ import sys
 import z3
 
 from .common import *  # noqa
+from .vharness import zor, zand  # noqa
 from mirsym.extmodels import mk_line, mk_hunk, mk_patched_file
 from mirsym.interp import explore, PathStats, Interp
 
@@ -485,11 +486,204 @@ def validate_sample(binary, s):
     return True
 
 
+# ------------------------------------------------------------------ affects: reference resolution
+
+AFF_NAMES = [None, 'x', 'y']
+AFF_MENU = [None, ':x', 'f1.py:y', ':x, f1.py:y', 'f0.py:x', ':zz', ' f1.py : x ', 'f1.py:y,:y']
+
+
+def parse_refs(text, own_file):
+    out = []
+    for piece in text.split(','):
+        fn, name = piece.strip().split(':', 1)
+        fn = fn.strip()
+        out.append((fn if fn else own_file, name.strip()))
+    return out
+
+
+def run_affects(task):
+    blocks, order = task        # blocks: tuple of (file index, name or None, affects text or None)
+    from .vharness import mk_block, mk_bwc, mk_context, run_validator, decode_violations
+    prog = driver.load_program()
+    stats = PathStats()
+    out = dict(violations=[], samples=[], obligations=0, cover={}, panic_paths=0)
+    holder = {}
+    roles = set()
+    files = ['f0.py', 'f1.py']
+
+    def run_path(I):
+        I.map_order = lambda n: [x for x in order if x < n] if len(order) >= n else list(range(n))
+        cms = []
+        per_file = {0: [], 1: []}
+        for bi, (fi, name, aff) in enumerate(blocks):
+            at = {}
+            if name is not None:
+                at['name'] = name.encode()
+            if aff is not None:
+                at['affects'] = aff.encode()
+            cm = I.fresh_bool('cm%d' % bi)
+            cms.append(cm)
+            blk = mk_block(prog, I, at, (10 * (bi + 1), 3), (10 * (bi + 1), 9), (0, 0), (10 * (bi + 1), 10), (10 * (bi + 1) + 2, 1))
+            per_file[fi].append(mk_bwc(prog, blk, content_modified=cm))
+        holder['cms'] = cms
+        ctx = mk_context(prog, I, [(files[fi].encode(), b'x', per_file[fi]) for fi in (0, 1) if per_file[fi]])
+        return run_validator(I, prog, 'AffectsValidator', ctx)
+
+    def viol(I, cond, role, summary):
+        out['obligations'] += 1
+        if role in roles:
+            return
+        if I.check(cond):
+            roles.add(role)
+            m = I.solver.model()
+            out['violations'].append(dict(role=role, summary=summary, blocks=[list(b) for b in blocks], order=list(order),
+                                          modified=[mval(m, c) for c in holder['cms']], values=None, shape=[]))
+
+    for I, pk, val in explore(prog, models.M, run_path, stats=stats, max_paths=20000):
+        if pk == 'panic':
+            out['panic_paths'] += 1
+            viol(I, z3.BoolVal(True), 'affects-panic', 'panic: %s' % val.msg[:120])
+            continue
+        cms = holder['cms']
+        st, res = decode_violations(prog, val)
+        if st == 'err':
+            viol(I, z3.BoolVal(True), 'affects-unexpected-error', 'well-formed affects references make the run fail')
+            continue
+        got = {}
+        for fname, vs in res.items():
+            for v in vs:
+                data = v['data']
+                payload = data.f[0].data if data.v == 1 else None
+                ref = None
+                if payload is not None:
+                    from mirsym.models import as_sstr
+                    ref = (bytes(as_sstr(I, get_field(prog, payload, 'AffectsViolation', 'affected_block_file_path')).b).decode(),
+                           bytes(as_sstr(I, get_field(prog, payload, 'AffectsViolation', 'affected_block_name')).b).decode())
+                key = (fname.decode(), v['start'][0] // 10 - 1, ref)
+                got[key] = got.get(key, 0) + 1
+                if bytes(v['code']) != b'affects':
+                    viol(I, z3.BoolVal(True), 'wrong-code', 'code %r' % bytes(v['code']))
+        for bi, (fi, name, aff) in enumerate(blocks):
+            if aff is None:
+                continue
+            refs = parse_refs(aff, files[fi])
+            for ref in set(refs):
+                mult = refs.count(ref)
+                target_mod = zor([cms[bj] for bj, (fj, nj, _a) in enumerate(blocks) if files[fj] == ref[0] and nj == ref[1]])
+                expect = z3.And(cms[bi], z3.Not(target_mod))
+                n = got.get((files[fi], bi, ref), 0)
+                if n == 0:
+                    viol(I, expect, 'drift-not-reported', 'block %d modified, %s:%s untouched, no affects violation' % (bi, ref[0], ref[1]))
+                else:
+                    viol(I, z3.Not(expect), 'spurious-drift-violation',
+                         'affects violation for %s:%s although the block is unmodified or the target is modified' % ref)
+                    if n != mult:
+                        viol(I, z3.BoolVal(True), 'drift-violation-count', '%d violations for reference %s:%s written %d time(s)' % (n, ref[0], ref[1], mult))
+        known = set((files[fi], bi, r) for bi, (fi, _n, aff) in enumerate(blocks) if aff for r in parse_refs(aff, files[fi]))
+        for key in got:
+            if key not in known:
+                viol(I, z3.BoolVal(True), 'unknown-drift-violation', 'violation %r matches no written reference' % (key,))
+        out['cover']['affects'] = out['cover'].get('affects', 0) + 1
+        if len(set(n for _f, n, _a in blocks if n)) < len([n for _f, n, _a in blocks if n]):
+            out['cover']['affects: duplicate names'] = 1
+    out.update(Agg(PROP, 'x').stats_from(stats))
+    return out
+
+
+def affects_tasks(rnd, nblocks, count):
+    tasks = []
+    choices = [(fi, n, a) for fi in (0, 1) for n in AFF_NAMES for a in AFF_MENU]
+    seen = set()
+    guard = 0
+    while len(tasks) < count and guard < count * 50:
+        guard += 1
+        bl = tuple(rnd.choice(choices) for _ in range(rnd.choice(nblocks)))
+        if not any(a for _f, _n, a in bl) or bl in seen:
+            continue
+        seen.add(bl)
+        tasks.append((bl, rnd.choice([(0, 1, 2, 3), (3, 2, 1, 0), (1, 0, 3, 2)])))
+    # hand-picked shapes: duplicate names with one modified, cycles, cross-file
+    fixed = [((0, 'x', ':y'), (0, 'y', ':x')),
+             ((0, None, 'f1.py:x'), (1, 'x', None), (1, 'x', None)),
+             ((0, 'a', ':x'), (0, 'x', None), (0, 'x', None)),
+             ((1, None, ':x, f1.py:y'), (1, 'x', None), (1, 'y', None))]
+    for f in fixed:
+        for o in ((0, 1, 2, 3), (3, 2, 1, 0)):
+            tasks.append((f, o))
+    return tasks
+
+
+def confirm_affects(binary, v, idx):
+    """Replay: two .py files; blocks with the witness's names/affects; modified blocks get their content line edited in the diff."""
+    v['confirmed'] = False
+    files = {0: [], 1: []}
+    names = ['f0.py', 'f1.py']
+    line_of = {}
+    for bi, (fi, name, aff) in enumerate(v['blocks']):
+        attrs = ''
+        if name is not None:
+            attrs += ' name="%s"' % name
+        if aff is not None:
+            attrs += ' affects="%s"' % aff
+        start = len(files[fi]) + 1
+        files[fi] += ['# <block%s>' % attrs, 'content%d = 1' % bi, '# </block>', 'gap = 0']
+        line_of[bi] = (fi, start + 1)
+    diff = ''
+    for fi in (0, 1):
+        changed = [line_of[bi][1] for bi in range(len(v['blocks'])) if line_of[bi][0] == fi and v['modified'][bi]]
+        if not changed:
+            continue
+        diff += 'diff --git a/%s b/%s\n--- a/%s\n+++ b/%s\n' % ((names[fi],) * 4)
+        for ln in changed:
+            diff += '@@ -%d +%d @@\n-old\n+%s\n' % (ln, ln, files[fi][ln - 1])
+    want = set()
+    for bi, (fi, name, aff) in enumerate(v['blocks']):
+        if aff is None or not v['modified'][bi]:
+            continue
+        for (rf, rn) in parse_refs(aff, names[fi]):
+            ok = any(v['modified'][bj] for bj, (fj, nj, _a) in enumerate(v['blocks']) if names[fj] == rf and nj == rn)
+            if not ok:
+                want.add((names[fi], line_of[bi][1] - 1, rf, rn))
+    d = scratch_dir('c01a')
+    try:
+        git_init(d)
+        for fi in (0, 1):
+            if files[fi]:
+                open(os.path.join(d, names[fi]), 'w').write('\n'.join(files[fi]) + '\n')
+        # globs put every block of both files into the validation context (as the harness does)
+        r = run_blockwatch(binary, d, [n for fi, n in enumerate(names) if files[fi]], stdin=diff.encode())
+    finally:
+        shutil.rmtree(d, ignore_errors=True)
+    got = set()
+    if r['stderr'].strip().startswith('{'):
+        try:
+            for fn, ds in json.loads(r['stderr']).items():
+                for x in ds:
+                    if x.get('code') == 'affects':
+                        got.add((fn, x['range']['start']['line'], x['data']['affected_block_file_path'], x['data']['affected_block_name']))
+        except (ValueError, KeyError):
+            pass
+    v['observed'] = dict(code=r['code'], violations=sorted(got), stderr=r['stderr'][-200:] if not got else '')
+    v['expected'] = sorted(want)
+    if got != want or (r['code'] == 1) != bool(want):
+        v['confirmed'] = True
+        rd = replay_dir(PROP, 'affects-%s-%d' % (v['role'], idx))
+        git_init(rd)
+        for fi in (0, 1):
+            if files[fi]:
+                open(os.path.join(rd, names[fi]), 'w').write('\n'.join(files[fi]) + '\n')
+        open(os.path.join(rd, 'input.diff'), 'w').write(diff)
+        open(os.path.join(rd, 'violation.json'), 'w').write(json.dumps(v, indent=1, default=str))
+        open(os.path.join(rd, 'replay.sh'), 'w').write('#!/bin/sh\n# expected affects violations %s\ncd "$(dirname "$0")" && "${BLOCKWATCH:-blockwatch}" f0.py f1.py < input.diff\n' % sorted(want))
+        v['replay'] = rd
+    return v
+
+
 # ------------------------------------------------------------------ entry point
 
 BOUNDS = {
-    'quick': dict(max_lines=4, max_hunks=2, max_edge_ctx=1, nranges=1, validate=24),
-    'thorough': dict(max_lines=6, max_hunks=3, max_edge_ctx=1, nranges=2, validate=200),
+    'quick': dict(max_lines=4, max_hunks=2, max_edge_ctx=1, nranges=1, validate=24, aff_blocks=[2, 3], aff_count=150),
+    'thorough': dict(max_lines=6, max_hunks=3, max_edge_ctx=1, nranges=2, validate=200, aff_blocks=[2, 3, 4], aff_count=2500),
 }
 
 
@@ -504,7 +698,9 @@ def main(tier):
     sample_every = max(1, len(shapes) // max(1, b['validate']))
     tasks = [(s, b['nranges'], i % sample_every == 0) for i, s in enumerate(shapes)]
     results = pmap(run_shape, tasks, chunksize=4)
-    for r in results:
+    atasks = affects_tasks(rnd, b['aff_blocks'], b['aff_count'])
+    aresults = pmap(run_affects, atasks, chunksize=4)
+    for r in results + aresults:
         agg.add(r)
     # confirm counterexamples: one per role is enough to report; confirm up to 3 per role
     by_role = {}
@@ -512,10 +708,13 @@ def main(tier):
         by_role.setdefault(v['role'], []).append(v)
     confirmed = []
     for role, vs in sorted(by_role.items()):
-        vs.sort(key=lambda v: (len(v['shape']), sum(len(x) for x in v['shape'])))
+        vs.sort(key=lambda v: (len(v.get('blocks', v['shape'])), sum(len(str(x)) for x in v['shape'])))
         got = 0
         for i, v in enumerate(vs[:6]):
-            confirm(binary, v, i)
+            if 'blocks' in v:
+                confirm_affects(binary, v, i)
+            else:
+                confirm(binary, v, i)
             if v.get('confirmed'):
                 confirmed.append(v)
                 got += 1
@@ -547,10 +746,11 @@ def main(tier):
             'diff_parser::line_diff is a stub returning sorted, separated, non-empty ranges inside the new line',
             'one block; start-tag comment ends at column cs>=30 (so the replay can realise it with a /* */ comment)',
             'tag lines themselves are "don\'t care" as the property states; mixed -/+ groups count through their + lines only',
+            'affects: blocks with names/references from a menu (same-file, cross-file, lists, duplicates, cycles, missing targets, blanks around names) and symbolic is_content_modified; references without a colon are C13\'s',
         ],
         stubs=['diff_parser::line_diff (contract stub)', 'unidiff::PatchedFile::hunks / Hunk::lines / Line::is_* (accessor models)'],
         must_cover=['event:add', 'event:mod', 'event:del', 'pure deletion after an unbalanced earlier hunk',
-                    'three or more changes with a modified line'],
+                    'three or more changes with a modified line', 'affects', 'affects: duplicate names'],
         explanation='per diff shape, all feasible MIR paths of line_changes + content_intersects_with_any; post-conditions PC∧inside(e)∧¬modified and PC∧all-away∧modified asked of Z3 per path')
 
 
